@@ -167,6 +167,31 @@ def compact_kid_key(has_kid: bool, kid: Union[str, int], keyform: int, alg_i: in
     return obj.payload == PAYLOAD and obj.protected == hdr
 
 
+def compact_kid_one(has_kid: bool, kid: Union[str, int], via_callable: bool, vr: bool) -> bool:
+    """
+    pre: not isinstance(kid, str) or len(kid) <= 1
+    post: _
+    """
+    rt.tick()
+    hdr = mk_header(True, 0, has_kid, kid, False, None, False, 0, False)
+    env = ice.Env(True, [vr])
+    env.bind_b64(H, b"HDRJSON")
+    env.bind_json(b"HDRJSON", lambda: ice.jcopy(hdr))
+    env.bind_b64(P, PAYLOAD)
+    env.bind_b64(S, sigv("HS256"))
+    ks = KeySet([_KA])
+    with env.installed():
+        try:
+            obj = jws.deserialize_compact(H + b"." + P + b"." + S, (lambda o: ks) if via_callable else ks, ["HS256"])
+        except ice.HarnessError:
+            raise
+        except Exception:  # noqa
+            return True
+    # accepted: only without kid (single-key shortcut) or with exactly that key's kid, and the verdict was "valid"
+    c = env.of("compare")
+    return (not has_kid or kid == "a") and len(c) == 1 and c[0]["verdict"]
+
+
 def compact_kid_key_witness(has_kid: bool, kid: Union[str, int], keyform: int, alg_i: int, vr: bool) -> bool:
     """
     pre: 0 <= keyform <= 2 and 0 <= alg_i <= 1
@@ -545,6 +570,9 @@ def _real_keys(keyform):
         return {"a": ja, "b": jb}.get(hdr.get("kid")) if isinstance(hdr.get("kid"), str) else None
     if keyform == 0:
         return ka, resolve
+    if keyform >= 3:
+        one = KeySet([ka])
+        return (one if keyform == 3 else (lambda obj: one)), (lambda hdr: ja if hdr.get("kid") in (None, "a") and not ("kid" in hdr and hdr["kid"] != "a") else None)
     ks = KeySet([ka, kb])
     return (ks if keyform == 1 else (lambda obj: ks)), resolve
 
@@ -624,6 +652,10 @@ def replay(func, call):
         elif func == "compact_alg_allow":
             has_alg, alg_i, allow_i, p_empty, s_empty, vr = args
             hdr = mk_header(has_alg, alg_i, False, None, False, None, False, 0, False)
+        elif func == "compact_kid_one":
+            has_kid, kid, via_callable, vr = args
+            hdr = mk_header(True, 0, has_kid, kid, False, None, False, 0, False)
+            keyform, allow_i = 3 + int(via_callable), 1
         elif func == "compact_reject_witness":
             hdr_bad, vr = args
             hdr = mk_header(True, 0, False, None, False, None, False, 0, False)
